@@ -38,16 +38,16 @@ OUTSIDE = ["/proc/<pid>/status of live processes across HUP/USR2 histories", "su
            "(documented behaviour: they stay the master's)"]
 
 UIDS = [0, 1000, 1001, 65534]
-GIDS = [0, 1000, 50, 65534]
+GIDS = [0, 1000, 50, 65534, 2147483648, 3000000000]
 USERS = {1000: ("app", [1000, 50]), 65534: ("nobody", [65534])}
 
 
 def owner(ui: int, gi: int, ig: bool, root: bool, mg: int) -> bool:
     """
-    pre: 0 <= ui <= 3 and 0 <= gi <= 3 and 0 <= mg <= 3
+    pre: 0 <= ui <= 3 and 0 <= gi <= 5 and 0 <= mg <= 3
     post: __return__
     """
-    uid, gid = UIDS[pick(ui, 0, 3)], GIDS[pick(gi, 0, 3)]
+    uid, gid = UIDS[pick(ui, 0, 3)], GIDS[pick(gi, 0, 5)]
     if root:
         # a privileged master, whose own primary group may already be the configured one
         cred = Cred(0, GIDS[pick(mg, 0, 3)], (0, 4), USERS)
@@ -77,7 +77,7 @@ def owner(ui: int, gi: int, ig: bool, root: bool, mg: int) -> bool:
 
 def owner_twin(ui: int, gi: int, ig: bool, root: bool, mg: int) -> bool:
     """
-    pre: 0 <= ui <= 3 and 0 <= gi <= 3 and 0 <= mg <= 3
+    pre: 0 <= ui <= 3 and 0 <= gi <= 5 and 0 <= mg <= 3
     post: __return__
     """
     if not (root and ig and ui == 1 and gi == 2):
@@ -92,12 +92,13 @@ def owner_twin(ui: int, gi: int, ig: bool, root: bool, mg: int) -> bool:
 
 
 # ---- 2. heartbeat file / unix socket ownership -----------------------------------------------------------------------------
-def files(ui: int, gi: int, root: bool) -> bool:
+def files(ui: int, gi: int, root: bool, dirgid: int) -> bool:
     """
-    pre: 0 <= ui <= 3 and 0 <= gi <= 3
+    pre: 0 <= ui <= 3 and 0 <= gi <= 5 and 0 <= dirgid <= 3
     post: __return__
     """
-    uid, gid = UIDS[pick(ui, 0, 3)], GIDS[pick(gi, 0, 3)]
+    uid, gid = UIDS[pick(ui, 0, 3)], GIDS[pick(gi, 0, 5)]
+    dirgid = GIDS[pick(dirgid, 0, 3)]       # set-group-id directory / BSD semantics: a new file takes the directory's group
     me = (0, 0) if root else (1000, 1000)
     if not root:
         uid, gid = 1000, 1000             # an unprivileged master can only configure itself
@@ -125,7 +126,8 @@ def files(ui: int, gi: int, root: bool) -> bool:
                             close=lambda fd: None, path=SimpleNamespace(isdir=lambda d: True))
     WT.tempfile = ns("WT.tempfile", mkstemp=mkstemp)
     WT.util = ns("WT.util", chown=chown, unlink=lambda n: log.append(("unlink", n)))
-    GS.os = ns("GS.os", umask=set_umask)
+    GS.os = ns("GS.os", umask=set_umask, geteuid=lambda: me[0], getegid=lambda: me[1], getuid=lambda: me[0],
+               getgid=lambda: me[1])
     GS.util = ns("GS.util", chown=chown)
     try:
         cfg = SimpleNamespace(umask=0o7, worker_tmp_dir=None, uid=uid, gid=gid)
@@ -141,7 +143,7 @@ def files(ui: int, gi: int, root: bool) -> bool:
 
         class S:
             def bind(self_, addr):
-                owners[addr] = me
+                owners[addr] = (me[0], dirgid)
         us.bind(S())
         if umask[0] != 0o22 or owners["/run/g.sock"] != (uid, gid):
             return False
@@ -236,10 +238,10 @@ def spawn_path(entry: int, ig: bool, ui: int, gi: int) -> bool:
 
 OBLIGATIONS = [
     Ob("C20.owner", "owner", timeout=300,
-       bound="uid in {0,1000,1001,65534}, gid in {0,1000,50,65534}, initgroups on/off, master root (with primary gid from the same set) or unprivileged; users 1000 and "
+       bound="uid in {0,1000,1001,65534}, gid in {0,1000,50,65534,2**31,3000000000}, initgroups on/off, master root (with primary gid from the same set) or unprivileged; users 1000 and "
              "65534 known, 1001 unknown"),
     Ob("C20.owner.twin", "owner_twin", expect="refute", timeout=60),
-    Ob("C20.files", "files", timeout=300, bound="same ids: WorkerTmp heartbeat file and UnixSocket.bind ownership, umask restored"),
+    Ob("C20.files", "files", timeout=300, bound="same ids: WorkerTmp heartbeat file and UnixSocket.bind ownership (socket directory handing its own group to new files), umask restored"),
     Ob("C20.spawn_path", "spawn_path", timeout=600,
        bound="child side of spawn_worker reached from manage_workers / TTIN / reload / a USR2-started master, all id combinations"),
 ]
